@@ -79,3 +79,85 @@ def monitor_traces(module, traces, props, workdir, timeout=900, specdirs=None):
                 v["file"] = tr
                 viols.append(v)
     return viols, {"monitor_states": nstates, "events": nev}
+
+
+# ------------------------------------------------------------------ a harness process died
+import re as _re
+
+def parse_go_crash(text):
+    """-> (message, frame) of a Go panic / fatal error in `text`; frame = first stack frame that lies in the repository
+    under test (function + file:line), or None when the text shows no such crash (e.g. a test timeout)."""
+    m = _re.search(r"^(panic: .*|fatal error: .*)$", text, _re.M)
+    if not m or "test timed out" in m.group(1):
+        return None
+    msg = m.group(1)
+    rest = text[m.end():]
+    lines = rest.splitlines()
+    for i in range(len(lines) - 1):
+        fn, loc = lines[i].strip(), lines[i + 1].strip()
+        if fn.startswith("github.com/snower/slock/") and loc.startswith("/") and ".go:" in loc:
+            path = loc.split(" ")[0]
+            return msg, {"func": fn.split("(0x")[0].replace("github.com/snower/slock/", ""), "at": "/".join(path.split("/")[-2:])}
+    return msg, None
+
+def crash_verdict(prop, binpath, testname, fin, fout, p, workdir, code="code-under-test-panicked", timeout=300, extra_env=None):
+    """A driver process died.  If it died of a Go panic / fatal error whose first repository frame is NOT harness code
+    (zz_verif_*), and the scenario that was in flight dies the same way when run ALONE (twice), that is behaviour of
+    the code under test: returns (violation, scenario).  Otherwise None (the caller raises InfraError)."""
+    text = (p.stdout or "") + "\n" + (p.stderr or "")
+    c = parse_go_crash(text)
+    if not c or not c[1] or "zz_verif" in c[1]["at"]:
+        return None
+    last = None
+    if os.path.exists(fout):
+        for ln in open(fout, errors="replace"):
+            if ln.startswith('{"e":"begin"') or '"e":"begin"' in ln[:24]:
+                try:
+                    last = json.loads(ln).get("name")
+                except Exception:
+                    pass
+    scs = [json.loads(l) for l in open(fin) if l.strip()]
+    cand = [s for s in scs if s.get("name") == last] or scs[:1]
+    sc = cand[0]
+    d = os.path.join(workdir, "crash_" + str(abs(hash(sc.get("name", ""))) % 10**8))
+    os.makedirs(d, exist_ok=True)
+    one = os.path.join(d, "in.ndjson")
+    with open(one, "w") as fh:
+        fh.write(json.dumps(sc) + "\n")
+    same = 0
+    for k in range(2):
+        env = {"VERIF_IN": one, "VERIF_OUT": os.path.join(d, f"out{k}.ndjson")}
+        if extra_env:
+            env.update(extra_env)
+        try:
+            q = vbuild.run_test(binpath, testname, env, cwd=d, timeout=timeout)
+        except subprocess.TimeoutExpired:
+            break
+        c2 = parse_go_crash((q.stdout or "") + "\n" + (q.stderr or ""))
+        if q.returncode != 0 and c2 and c2[1] and c2[1]["func"] == c[1]["func"]:
+            same += 1
+    if same < 2:
+        return None
+    v = {"prop": prop, "code": code, "name": sc.get("name"), "detail": {"panic": c[0][:200], "func": c[1]["func"], "at": c[1]["at"], "reproduced_alone": same}}
+    return v, sc
+
+def drop_unfinished(fout):
+    """cut a trace file of a dead driver back to its last complete history (a `begin` without `end` and a torn last line go)"""
+    if not os.path.exists(fout):
+        open(fout, "w").close()
+        return
+    lines = open(fout, errors="replace").read().split("\n")
+    good, cur = [], []
+    for ln in lines:
+        if not ln.strip():
+            continue
+        try:
+            e = json.loads(ln)
+        except Exception:
+            break
+        cur.append(ln)
+        if e.get("e") == "end":
+            good += cur
+            cur = []
+    with open(fout, "w") as fh:
+        fh.write("".join(l + "\n" for l in good))
